@@ -150,6 +150,13 @@ REASONS = [
     (r"^util::hex::encode$", r".",
      "documented precondition dest.len() >= 2*src.len(), established at every caller (precondition:hex::encode@... obligations); "
      "chunks_mut(2) of an even-length slice yields 2-byte chunks; nibbles are < 16 = DIGITS.len()"),
+    (r"^<repository::sigobj::StartOfValue as std::io::Write>::write$", r".",
+     "pos starts at 0 and grows by min(8 - pos, buf.len()), so pos <= 8 = res.len(); both slices are cut to that minimum"),
+    (r"^<util::base64::SkipWhitespace<'_> as std::io::Read>::read$", r".",
+     "the copy into buf[..current_len] happens on the branch current_len < buf_len, split_at(buf_len) on the other branch "
+     "(buf_len <= current_len); res sums lengths of pieces of one input string",
+     [r"^Lt\(slice::len\(self\.current\), slice::len\(%2\)\) -> (0|else)$"]),
+    (r"^rtr::pdu::RouterKey::max_key_info_size$", r".", "constant expression: u32::MAX - size_of::<RouterKeyFixed>() (a 12-byte struct)"),
     (r"^xml::encode::TextEscape::write_escaped$", r".", "idx comes from enumerate() over the same slice, so idx < s.len()"),
 ]
 KNOWN = set()
